@@ -600,8 +600,10 @@ class FermionicArray(AbelianArray):
             new.phase_global(inplace=True)
 
         if phase_dual:
+            # n.b. `new_indices` are already conjugated, so these are the
+            # legs that were dual originally, matching `conj`
             axs_conj = tuple(
-                ax for ax, ix in enumerate(new_indices) if ix.dual
+                ax for ax, ix in enumerate(new_indices) if not ix.dual
             )
             new.phase_flip(*axs_conj, inplace=True)
 
